@@ -135,6 +135,8 @@ type Exec struct {
 	Trace       bool
 	LenOfSym    map[int]*Term
 	CurHarness  string
+	Tier        string
+	BitLenDense int
 }
 
 type Observation struct {
